@@ -4,6 +4,10 @@ import json, os
 ROOT = os.path.dirname(os.path.abspath(__file__))
 S = 'Engine S: symbolic execution of the clang-14 LLVM IR of the real translation unit (harness #includes the .cpp), z3 decides every assertion and every memory/UB obligation on every path'
 CLAIMED = {
+ 'C11': ('Bounded symbolic check of the replica import Node::receive_chunk (lifted onto a partial Node with the real ChunkStore, KademliaTable, Shamir, CryptoManager, ChaCha20): a replica is stored, announced, cached or returned only if its decryption hashes to the manifest content hash; the stored bytes are the imported ciphertext; its lifetime and self-announcement do not outlive the manifest.',
+         'ONLY the tampered-replica clause: the store -> lookup -> CLI decryption round trip (store_chunk / fetch_chunk / main.cpp) is not encoded; SHA-256 uninterpreted; 1-2 shards, ciphertext 0..2 B'),
+ 'C35': ('Bounded symbolic check that the replica-import handler Node::receive_chunk lets no exception escape and performs no invalid memory access for any share set (0..3 shards, repeated indices included), threshold, expiry and ciphertext within the bounds; composes with the total-decoder checks C16, C18, C33, C38.',
+         'ONLY this handler and the decoder checks: session threads, control-plane parser, other handlers and liveness are not encoded'),
  'C03': ('Bounded symbolic check of manifest-derived lifetimes: manifest_ttl for every expiry / wall-clock reading / sanitised window never exceeds the manifest\'s remaining life, lies in [min, max] and rejects exactly the expired or too-short manifests; Node::ingest_manifest (lifted onto a partial Node with the real KademliaTable) changes state only on acceptance and the cached key shares then expire no later than the manifest.',
          'ONLY the key-share and rejection clauses: provider contacts (handle_announce), replica copies (receive_chunk) and pending fetches are not encoded; decode_manifest supplied by the harness; ingest job over small time ranges'),
  'C20': ('Bounded symbolic check of Node::perform_handshake (lifted from the current core/Node.cpp onto a partial Node with the real KeyManager, KeyExchange, ReputationManager): over every history of 2 (quick) / 3 (thorough) inbound handshakes of one claimed peer with symbolic keys, nonces and clock gaps, acceptance implies a valid key, rejection registers nothing, keeps existing keys and lowers the reputation; with symbolic difficulty, acceptance happens exactly when the key is valid and the PoW predicate holds.',
